@@ -401,6 +401,38 @@ def evalf(e: E, env):
     raise NotImplementedError(op)
 
 
+def evalmag(e: E, env):
+    """Magnitude bound of e at a float point: every constant, variable and intermediate taken in absolute value and
+    every subtraction turned into an addition.  A float evaluation of e is off by a small multiple of eps * evalmag;
+    this is the scale for comparing the real code with the specification where cancellation or tiny / huge operands
+    make "relative to the result" meaningless."""
+    op = e.op
+    if op == "c":
+        return abs(float(e.args[0]))
+    if op == "v":
+        return abs(float(env[e.args[0]]))
+    if op == "k":
+        return math.pi
+    if op == "+":
+        return evalmag(e.args[0], env) + evalmag(e.args[1], env)
+    if op == "neg":
+        return evalmag(e.args[0], env)
+    if op == "*":
+        return evalmag(e.args[0], env) * evalmag(e.args[1], env)
+    if op == "/":
+        b = evalf(e.args[1], env)
+        return evalmag(e.args[0], env) / abs(b) if b else math.inf
+    if op == "pow":
+        n = e.args[1]
+        if n >= 0:
+            return evalmag(e.args[0], env) ** n
+        b = evalf(e.args[0], env)
+        return abs(b) ** n if b else math.inf
+    if op in ("max", "min", "pw", "fn", "atan2"):
+        return abs(evalf(e, env))
+    raise NotImplementedError(op)
+
+
 def from_sympy(s):
     """sympy -> E walker (used for models that exist only as sympy objects in the repository)."""
     import sympy
